@@ -40,7 +40,7 @@ RULE = ('generated valid transactions/blocks (1-9 transactions, with/without wit
         'Hash(nonce+root), coinbase witness absent / empty / two items / 31 or 33 bytes, timestamp at cur_time+7200 and '
         '+7201, compact targets around the hash and around each chain limit, transaction size 1,000,000 vs 1,000,001, '
         'block size and weight boundaries (thorough tier)')
-IN_COQ_SAMPLE = 6
+IN_COQ_SAMPLE = 4
 
 COIN = 100000000
 MAX_MONEY = 21000000 * COIN
@@ -492,16 +492,16 @@ def classify(e, a, iv):
 def generate(rng, tier, boost):
     big = tier == 'thorough' or boost
     cases = []
-    cases += gen_tx_cases(rng, 150 if big else 30)
+    cases += gen_tx_cases(rng, 300 if big else 40)
     # transaction size boundary (CheckTransaction on a 1,000,000 / 1,000,001-byte transaction)
     for size in (1000000, 1000001):
         add(cases, 1601, [rng.randrange(4), big_tx(size)], 'tx-size-%d' % size)
-    shapes = [(1, False), (2, False), (2, True), (3, True), (3, False), (5, True), (4, False), (9, True)]
-    rounds = 14 if big else 3
+    shapes = [(1, False), (2, False), (2, True), (3, True), (3, False), (5, True), (4, False)] + ([(9, True)] if big else [])
+    rounds = 10 if big else 1
     for r in range(rounds):
         for ntx, wit in shapes:
             cases += gen_block_family(rng, ntx, wit, big)
-    cases += header_cases(rng, 2000 if big else 200)
+    cases += header_cases(rng, 4000 if big else 400)
     if big:
         cases += size_cases(rng)
     return cases
